@@ -4,6 +4,7 @@
 -/
 import CharsetProof.Model.Concrete
 import CharsetProof.Model.SortLarge
+import CharsetProof.Model.DecodeHelper
 namespace Charset.Driver
 open Charset
 
@@ -284,6 +285,19 @@ def handle (line : String) : String :=
     match unhex bh with
     | some b => (match tablesNow.declared b with | some e => s!"ok {asciiOfName e}" | none => "ok none")
     | none => "bad-op"
+  | ["helper", enc, trap, onlyTest, chunk, bh] =>
+    -- utils::decode in all modes for the modelled codecs
+    match unhex bh, (match trap with | "strict" => some Trap.strict | "ignore" => some Trap.ignore | "replace" => some Trap.replace | _ => none) with
+    | some b, some trap =>
+      let e := nameOfAscii enc
+      (match codecNow e with
+       | none => "ok notfound"
+       | some c =>
+         match decodeHelper c (Gen.multiByte.contains e) trap (parseBool onlyTest) (parseBool chunk) b with
+         | none => "ok external"
+         | some none => "ok E"
+         | some (some t) => s!"ok T{hexOfText t}")
+    | _, _ => "bad-op"
   | ["decode", enc, bh, ch] =>
     match unhex bh with
     | some b =>
